@@ -65,7 +65,8 @@ namespace planners
         // BIT*/ABIT* declare the template but define it out of line (not instantiable from outside the library)
         template <class P>
         constexpr bool nnUsable = HasNN<P>::value && !std::is_base_of<og::BITstar, P>::value &&
-                                  !std::is_base_of<og::LazyPRM, P>::value;  // LazyPRM::setNearestNeighbors leaves the new structure
+                                  !std::is_base_of<og::LazyPRM, P>::value && !std::is_base_of<og::PRM, P>::value &&
+                                  !std::is_same<og::SPARS, P>::value && !std::is_same<og::SPARStwo, P>::value;  // LazyPRM::setNearestNeighbors leaves the new structure
                                                                               // without a distance function (bad_function_call on first use;
                                                                               // library API defect outside the listed properties)
         template <class P>
